@@ -372,3 +372,7 @@ def run(ctx, report: Report) -> None:
             r4.violation(f'css_match.{q} self.{a} {st}', mmod.where(fn), msg)
     if n_swaps < 2:
         raise AnalysisError('the namespace/iframe swap of match_selectors was not found (anchor vanished)')
+
+    from .sem import list_context_table
+    list_context_table(ctx, r4)
+
